@@ -70,6 +70,7 @@ class StepOracle:
         t_new = pd.time[n]
         fs, fconcs = [], []
         sentinel_vf = 0.0
+        zero_vf = 0.0
         skip_mass = False
         any_pop = False
         for p in range(nph):
@@ -109,6 +110,10 @@ class StepOracle:
                     if len(popd) and (np.any(tab[popd] == -1) or np.any(tab[popd + 1] == -1)):
                         sentinel_vf += abs(volRatio * F * m3)
                         self.flags.add("sentinel_composition_in_populated_class")
+                    stage_neg = any(float(s_["dG"][p]) < 0 for s_ in snap["stages"]) if snap["stages"] else False
+                    if len(popd) and not np.any(tab) and stage_neg and not self.binary:
+                        zero_vf += abs(volRatio * F * m3)
+                        self.flags.add("composition_table_zeroed_by_transient_stage")
             fs.append(expF)
             fconcs.append(fconc)
             if self.do_moments:
@@ -159,7 +164,7 @@ class StepOracle:
             for p in range(nph):
                 if np.any(np.abs(gotfc[p] - fconcs[p]) > 1e-9 * np.abs(fconcs[p]) + 1e-30):
                     self._fail("precipitate_content_mismatch", "step %d phase %d: recorded precipitate solute content %r, sum of volume x composition over the distribution %r" % (n, p, gotfc[p].tolist(), fconcs[p].tolist()), step=int(n),
-                               sentinel_vf=sentinel_vf, dev=float(np.max(np.abs(gotfc[p] - fconcs[p]))))
+                               sentinel_vf=sentinel_vf, zero_vf=zero_vf, dev=float(np.max(np.abs(gotfc[p] - fconcs[p]))))
             if ftot < 1:
                 exp = (self.x0 - np.sum(np.array(fconcs), axis=0)) / (1 - ftot)
                 for e in range(len(self.x0)):
@@ -173,7 +178,7 @@ class StepOracle:
                         tol = 1e-9 * scale + 256 * EPS * abs(self.x0[e]) / (1 - ftot)
                         if not abs(got[e] - exp[e]) <= tol:
                             self._fail("solute_not_conserved", "step %d element %d: x0=%r, matrix %r, precipitate fraction %r: balance requires matrix composition %r (diff %.3e)" % (n, e, self.x0[e], got[e], ftot, exp[e], got[e] - exp[e]), step=int(n),
-                                       sentinel_vf=sentinel_vf, dev=float(abs(got[e] - exp[e]) * (1 - ftot)))
+                                       sentinel_vf=sentinel_vf, zero_vf=zero_vf, dev=float(abs(got[e] - exp[e]) * (1 - ftot)))
             else:
                 self.flags.add("fraction_saturated")
 
